@@ -57,19 +57,41 @@ class Log:
         self.calls = []      # (recorder id, args tuple)
         self.tokens = {}
 
-    def recorder(self, rid, coroutine):
+    def recorder(self, rid, coroutine, arity=None):
+        """arity=None: accepts anything.  arity=n: a handler with exactly n positional parameters (a real
+        signature, so that calling it with another number of arguments raises TypeError at the call,
+        which is what sends the library down its legacy-disconnect retry path)."""
         token = ('token', rid)
         self.tokens[rid] = token
-        if coroutine:
-            async def rec(*args, **kw):
-                self.calls.append((rid, args, kw))
-                return token
+        calls = self.calls
+
+        def note(*args, **kw):
+            calls.append((rid, args, kw))
+            return token
+        if arity is None:
+            if coroutine:
+                async def rec(*args, **kw):
+                    return note(*args, **kw)
+            else:
+                def rec(*args, **kw):
+                    return note(*args, **kw)
         else:
-            def rec(*args, **kw):
-                self.calls.append((rid, args, kw))
-                return token
+            ps = ', '.join('a%d' % i for i in range(arity))
+            src = '%sdef rec(%s):\n    return note(%s)\n' % ('async ' if coroutine else '', ps, ps)
+            env = {'note': note}
+            exec(src, env)
+            rec = env['rec']
         rec.__name__ = 'rec_' + rid
         return rec
+
+
+def legacy_arity(case):
+    """slot -> number of parameters of a LEGACY-signature handler: one fewer than the arguments the
+    slot is called with (prefix + event arguments), i.e. a `disconnect` handler without `reason`"""
+    if not case.get('legacy'):
+        return {}
+    n = len(case['args'])
+    return {'fnNsEv': n - 1, 'fnNsStar': n, 'fnStarEv': n, 'fnStarStar': n + 1, 'clsNs': n - 1, 'clsStar': n}
 
 
 def build(case):
@@ -79,30 +101,31 @@ def build(case):
     bits = case['bits']
     obj = make_object(kind)
     log = Log()
+    ar = legacy_arity(case)
     other_ev = ev + '~unrelated'
     other_ns = ns + '/unrelated'
     # for ev == '*' the exact-name key IS the catch-all key: bits 0 and 2 are forced to 0 by the generators
     # likewise for ns == '*' the namespace key IS the catch-all key: bits 0, 1 and 4 are forced to 0
     if bits[0] and ev != '*' and ns != '*':
-        obj.on(ev, handler=log.recorder('fnNsEv', co), namespace=ns)
+        obj.on(ev, handler=log.recorder('fnNsEv', co, ar.get('fnNsEv')), namespace=ns)
     if bits[1] and ns != '*':
-        obj.on('*', handler=log.recorder('fnNsStar', co), namespace=ns)
+        obj.on('*', handler=log.recorder('fnNsStar', co, ar.get('fnNsStar')), namespace=ns)
     if bits[2] and ev != '*':
-        obj.on(ev, handler=log.recorder('fnStarEv', co), namespace='*')
+        obj.on(ev, handler=log.recorder('fnStarEv', co, ar.get('fnStarEv')), namespace='*')
     if bits[3]:
-        obj.on('*', handler=log.recorder('fnStarStar', co), namespace='*')
+        obj.on('*', handler=log.recorder('fnStarStar', co, ar.get('fnStarStar')), namespace='*')
     cls = ns_class(kind)
     if bits[4] and ns != '*':
         o = cls(ns)
         if case['m5']:
-            setattr(o, 'on_' + ev, log.recorder('clsNs', co))
+            setattr(o, 'on_' + ev, log.recorder('clsNs', co, ar.get('clsNs')))
         if case['un'] & 1:
             setattr(o, 'on_' + other_ev, log.recorder('x:clsNs.other', co))
         obj.register_namespace(o)
     if bits[5]:
         o = cls('*')
         if case['m6']:
-            setattr(o, 'on_' + ev, log.recorder('clsStar', co))
+            setattr(o, 'on_' + ev, log.recorder('clsStar', co, ar.get('clsStar')))
         if case['un'] & 2:
             setattr(o, 'on_' + other_ev, log.recorder('x:clsStar.other', co))
         obj.register_namespace(o)
@@ -160,8 +183,10 @@ def expected_view(kind, ans, case):
     """Expected observation from a model/spec/oracle answer of the form
     {'res': 'invoke'|'dropped'|'notHandled', 'slot':…, 'args': [prefix strings]}."""
     if ans['res'] == 'invoke':
-        return {'calls': [(ans['slot'], tuple(ans['args']) + tuple(case['args']), {})],
-                'ret': ('token', ans['slot'])}
+        full = tuple(ans['args']) + tuple(case['args'])
+        if case.get('legacy'):          # the legacy handler is invoked once, without the last argument
+            full = full[:-1]
+        return {'calls': [(ans['slot'], full, {})], 'ret': ('token', ans['slot'])}
     if ans['res'] == 'dropped':
         return {'calls': [], 'ret': ('none',)}
     return {'calls': [], 'ret': ('not_handled',) if kind in ('server', 'asyncServer') else ('none',)}
@@ -241,6 +266,13 @@ def exhaustive_cases(reserved_by_kind):
                                        'bits': list(bits), 'm5': m5, 'm6': m6, 'un': un,
                                        'args': ['sid-1', {'k': [1, 2]}] if ev not in ('connect_error',)
                                        else ['reason']}
+                                if ev == 'disconnect' and ns == '/chat' and un in (0, 3):
+                                    # handlers with the LEGACY signature (no `reason` parameter): the
+                                    # library's TypeError retry must still invoke exactly one target
+                                    yield {'kind': kind, 'mode': mode, 'ns': ns, 'ev': ev,
+                                           'bits': list(bits), 'm5': m5, 'm6': m6, 'un': un, 'legacy': 1,
+                                           'args': ['sid-1', 'transport close'] if kind in (
+                                               'server', 'asyncServer') else ['transport close']}
 
 
 def gen_name(rng, kind):
@@ -282,10 +314,12 @@ def random_case(rng):
     ns = gen_ns(rng)
     if ns == '*':
         bits[0] = bits[1] = bits[4] = 0
+    legacy = int(ev == 'disconnect' and rng.random() < 0.5)
     return {'kind': kind, 'mode': rng.choice(['sync', 'coroutine']), 'ns': ns,
             'ev': ev, 'bits': bits,
             'm5': int(rng.random() < 0.75), 'm6': int(rng.random() < 0.75), 'un': rng.randint(0, 3),
-            'args': [G.gen_value(rng, 2, 0.15) for _ in range(rng.randint(0, 4))]}
+            'legacy': legacy,
+            'args': [G.gen_value(rng, 2, 0.15) for _ in range(rng.randint(1 if legacy else 0, 4))]}
 
 
 def judge(ctx, case, impl, model_ans, spec_ans, stats):
@@ -329,6 +363,8 @@ def execute(ctx, cases, loop, stats, nontrivial, samples):
             ctx.count('event_named_star')
         if case['ns'] == '*':
             ctx.count('namespace_named_star')
+        if case.get('legacy'):
+            ctx.count('legacy_disconnect_signature')
         if sum(case['bits']) >= 2:
             nontrivial.add(json.dumps([case['kind'], case['mode'], case['ns'], case['ev'], case['bits'],
                                        case['m5'], case['m6'], case['un']]))
@@ -355,11 +391,12 @@ def run(ctx):
     C.build_driver('dispatch')
     C.proof_step(ctx, ['translator harness/translate_reserved.py (ast -> Sio/Generated/Reserved.lean); the '
                        'lists it emits are compared with the run-time `reserved_events` of the four classes',
-                       'handler truthiness (`if handler:`) and the TypeError retry for legacy disconnect '
-                       'handlers are not modelled: recording handlers accept any arguments'])
+                       'handler truthiness (`if handler:`) is not modelled; the TypeError retry for legacy '
+                       'disconnect handlers is exercised with fixed-arity recorders and judged by the oracle '
+                       '(one target, invoked once without the reason)'])
     # the same table for the handler resolution inside the server-core model (K4) and the client
-    # model's registry (K7): Sio/Props/Glue.lean
-    C.audit_extra(ctx, 'Glue', ['server_reserved_eq', 'server_resolve_eq', 'step_invokes_dispatch',
+    # model's registry (K7): Sio/Props/GlueDispatch.lean
+    C.audit_extra(ctx, 'GlueDispatch', ['server_reserved_eq', 'server_resolve_eq', 'step_invokes_dispatch',
                                 'step_invokes_table', 'server_reserved_never_catchall', 'client_reserved_eq',
                                 'client_resolve_eq', 'client_event_dispatch'])
     if gen_problem and 'Reserved.lean' in gen_problem:
@@ -416,7 +453,8 @@ def run(ctx):
         'rule': 'exhaustive: {namespace "/chat", "*", "**", "/*"} x 2^6 presence bits x {class has on_<event> or not, per registered class} x '
                 '{ordinary event, the event names "*", "**", "*x", each reserved name of the class} x {unrelated handlers: none, same namespace, '
                 'catch-all/other namespace, both} x {Server, AsyncServer, Client, AsyncClient} x {sync, coroutine '
-                'recorders}; plus random namespaces, event names (reserved ones included), argument lists. '
+                'recorders}; for `disconnect` additionally handlers with the legacy signature (one parameter fewer: '
+                'TypeError retry path, function handlers and class methods); plus random namespaces, event names (reserved ones included), argument lists. '
                 'non-trivial = at least two of the six targets registered (precedence decides)',
         'samples': samples, 'traces_validated_against_impl': len(ex) + len(rnd),
         'oracle_failures': stats['oracle_fail'], 'model_disagreements': stats['model_fail'],
